@@ -76,6 +76,38 @@ Theorem reentrancy_transparent : forall y st,
   fst (convert y st) = ideal_convert y /\ flag (snd (convert y st)) = flag st.
 Proof. exact reentrancy_transparent_proof. Qed.
 
+(* The registry is a map keyed by handle number, whatever else it holds: handles left behind by
+   earlier conversions on the thread (a Value handed to a foreign serializer, #[serde(flatten)] on a
+   Value, a conversion that failed or unwound between registration and redemption) stay where they
+   are and are never handed out for another number.  Together with [handles_identity] (which is
+   stated for EVERY registry state r): redemption is lookup by key. *)
+Theorem registry_keyed : forall r h v h',
+  reg_get (reg_insert r h v) h = Some v /\
+  fst (reg_remove r h) = reg_get r h /\
+  (h' <> h -> reg_get (reg_insert r h v) h' = reg_get r h' /\ reg_get (snd (reg_remove r h)) h' = reg_get r h').
+Proof.
+  intros r h v h'. split; [apply reg_get_insert_same|]. split; [apply reg_remove_get|].
+  intro Hne. split; [apply reg_get_insert_other | apply reg_remove_other]; exact Hne.
+Qed.
+
+(* impl Serialize for Value, sequence arm, into serde_json: with the length hint the code passes
+   (exact for sized objects, None for iterables that do not know their length) the emitted text is
+   the array "[" e1 sep .. en "]", for every element list and either separator ... *)
+Theorem seq_hint_wellformed : forall sep sized elems,
+  json_array sep (seq_len_hint sized elems) elems = array_text sep elems.
+Proof. exact seq_hint_wellformed_proof. Qed.
+
+(* ... and that is the requirement: any hint that is absent or exact; a lower bound is not enough
+   (hint 0 on [1, 2] gives "[], 1, 2]"). *)
+Theorem json_array_wellformed : forall sep hint elems,
+  hint = None \/ hint = Some (lenZ elems) -> json_array sep hint elems = array_text sep elems.
+Proof. exact json_array_wellformed_proof. Qed.
+
+Theorem zero_hint_breaks :
+  json_array [44; 32] (Some 0) [[49]; [50]] = [91; 93; 44; 32; 49; 44; 32; 50; 93] /\
+  json_tokens (json_array [44; 32] (Some 0) [[49]; [50]]) <> json_tokens (array_text [44; 32] [[49]; [50]]).
+Proof. exact zero_hint_breaks_proof. Qed.
+
 (* non-vacuity: a nested enum/struct/option/map value meets the hypotheses of [roundtrip]; a JSON
    text with the four characters inside a literal meets those of [postprocess_preserves_json] *)
 Definition ex_shape : sty :=
@@ -107,6 +139,15 @@ Example reentrancy_witness :
                (field_key 2, safe); (field_key 3, VUndef); (field_key 4, VBool true)]).
 Proof. vm_compute. repeat split; reflexivity. Qed.
 
+Example history_witness :
+  (* a conversion that leaves two handles behind and fails, then one with embedded values *)
+  let safe := VStr true [60; 98; 62] in
+  let st1 := snd (convert (NSeq (NCons (NLeak (VStr false [115])) (NCons (NFlatten VUndef) NNil))) fresh_thread) in
+  reg st1 <> reg fresh_thread /\ flag st1 = false /\
+  fst (convert (NStruct (NCons (NEmb safe) (NCons (NEmb VUndef) NNil))) st1)
+    = ROk (VMap [(field_key 0, safe); (field_key 1, VUndef)]).
+Proof. vm_compute. repeat split; try reflexivity. discriminate. Qed.
+
 Example postprocess_witness :
   json_tokens [91; 34; 60; 47; 39; 92; 34; 34; 44; 49; 93]
     = Some [TCh 91; TLit [60; 47; 39; 34]; TCh 44; TCh 49; TCh 93] /\
@@ -119,6 +160,10 @@ Print Assumptions roundtrip_domain_is_tight.
 Print Assumptions handles_identity.
 Print Assumptions handles_no_leak.
 Print Assumptions reentrancy_transparent.
+Print Assumptions registry_keyed.
+Print Assumptions seq_hint_wellformed.
+Print Assumptions json_array_wellformed.
+Print Assumptions zero_hint_breaks.
 Print Assumptions tojson_html_safe.
 Print Assumptions postprocess_preserves_json.
 Print Assumptions html4_only_in_literals.
